@@ -496,7 +496,7 @@ func listenerCheck(an *Analysis, prop string, relax func(e *model.Expect, data [
 			}
 			var begin, end, stop *vnet.Ev
 			var cbs []cb
-			var delivered []vnet.Ev
+			var delivered, arrived []vnet.Ev
 			var bindFail *vnet.Ev
 			sock := 0
 			for i := range res.Trace {
@@ -539,6 +539,10 @@ func listenerCheck(an *Analysis, prop string, relax func(e *model.Expect, data [
 					if sock != 0 && e.Sock == sock {
 						delivered = append(delivered, e)
 					}
+				case "udp-arrive":
+					if sock != 0 && e.Sock == sock {
+						arrived = append(arrived, e)
+					}
 				}
 			}
 			if begin == nil {
@@ -579,6 +583,20 @@ func listenerCheck(an *Analysis, prop string, relax func(e *model.Expect, data [
 			if nconn != 1 {
 				v("on-connected", fmt.Sprintf("OnConnected fired %d times", nconn))
 			}
+			// while listening, whatever reaches the socket is received: unless a callback holds the dispatcher up,
+			// every datagram that arrived strictly before the stop signal has been read
+			if stop != nil && len(st.Holds) == 0 {
+				early := 0
+				for _, a := range arrived {
+					if a.T < stop.T {
+						early++
+					}
+				}
+				if len(delivered) < early {
+					v("stopped-receiving", fmt.Sprintf("%d datagrams reached the listen socket before the stop signal but only %d were received", early, len(delivered)))
+				}
+			}
+
 			// expected callbacks from the delivery log
 			type want struct {
 				valid, soft bool
